@@ -5,6 +5,8 @@ CONSTANTS
   ProcOf <- GProcOf
   Prog <- GProg
   Modes = {"fork", "spawn"}
+  QInit = {TRUE}
+  MaxToggle = 0
   CopyStep = TRUE
   Variant = "code"
 INVARIANT TypeOK
